@@ -9,6 +9,8 @@ From P7 Require Import Prelude PyPrims Number Header HeaderPrims Spec SpecProofs
 From P7 Require PackInfoGen.
 From P7 Require HeaderGenPrims FolderGen.
 From P7 Require SubstreamsGen.
+From P7 Require StreamsGen.
+From P7 Require FilesGen.
 From P7gen Require ArchiveinfoRecords.
 Open Scope Z_scope.
 
@@ -241,3 +243,56 @@ Proof.
   exact (s_substreams_wr lim fs s sz bs HF Hn Hwf Hsz Hne Hw).
 Qed.
 Print Assumptions C07_gen_substreams_strict.
+
+(* ---- third wave (stage 4): StreamsInfo.write as translated on this run is write_streams, for every object whose UnpackInfo
+   (if any) has numfolders = len(folders) (UnpackInfo.write asserts it); enable_digests is the PackInfo's attribute. ---- *)
+Theorem C07_gen_StreamsInfo_write_is_write_streams : forall self : ArchiveinfoRecords.StreamsInfo,
+  (forall u, ArchiveinfoRecords.StreamsInfo_unpackinfo self = Some u ->
+             ArchiveinfoRecords.UnpackInfo_numfolders u = zlen (ArchiveinfoRecords.UnpackInfo_folders u)) ->
+  (do (o, out) <- ArchiveinfoRecords.StreamsInfo_write self; Ok out)
+  = write_streams (StreamsGen.streams_digests self) (StreamsGen.streams_of self).
+Proof. exact StreamsGen.gen_StreamsInfo_write_eq_model. Qed.
+Print Assumptions C07_gen_StreamsInfo_write_is_write_streams.
+
+(* ---- third wave (stage 5, pieces): write_utf16 and the FilesInfo writers _write_names / _write_attributes / _write_times
+   (per key) / _are_there as translated on this run are wr_utf16 / write_names / write_attributes / write_times / any_true,
+   for every object, errors included. ---- *)
+Theorem C07_gen_write_utf16_is_wr_utf16 : forall s, ArchiveinfoRecords.write_utf16 s = wr_utf16 s.
+Proof. exact FilesGen.gen_write_utf16. Qed.
+Print Assumptions C07_gen_write_utf16_is_wr_utf16.
+
+Theorem C07_gen_FilesInfo_write_names_is_write_names : forall self : ArchiveinfoRecords.FilesInfo,
+  ArchiveinfoRecords.FilesInfo_write_names self = write_names (map FilesGen.file_of (ArchiveinfoRecords.FilesInfo_files self)).
+Proof. exact FilesGen.gen_FilesInfo_write_names. Qed.
+Print Assumptions C07_gen_FilesInfo_write_names_is_write_names.
+
+Theorem C07_gen_FilesInfo_write_attributes_is_write_attributes : forall self : ArchiveinfoRecords.FilesInfo,
+  ArchiveinfoRecords.FilesInfo_write_attributes self = write_attributes (map FilesGen.file_of (ArchiveinfoRecords.FilesInfo_files self)).
+Proof. exact FilesGen.gen_FilesInfo_write_attributes. Qed.
+Print Assumptions C07_gen_FilesInfo_write_attributes_is_write_attributes.
+
+Theorem C07_gen_FilesInfo_write_times_are_write_times : forall (self : ArchiveinfoRecords.FilesInfo) p,
+  let fs := map FilesGen.file_of (ArchiveinfoRecords.FilesInfo_files self) in
+  ArchiveinfoRecords.FilesInfo_write_times_creationtime self [p] = write_times p e_ctime fs /\
+  ArchiveinfoRecords.FilesInfo_write_times_lastaccesstime self [p] = write_times p e_atime fs /\
+  ArchiveinfoRecords.FilesInfo_write_times_lastwritetime self [p] = write_times p e_mtime fs.
+Proof.
+  intros self p fs. repeat split; [apply FilesGen.gen_FilesInfo_write_times_creationtime
+                                  | apply FilesGen.gen_FilesInfo_write_times_lastaccesstime
+                                  | apply FilesGen.gen_FilesInfo_write_times_lastwritetime].
+Qed.
+Print Assumptions C07_gen_FilesInfo_write_times_are_write_times.
+
+Theorem C07_gen_FilesInfo_are_there_is_any_true : forall v, ArchiveinfoRecords.FilesInfo_are_there v = Ok (any_true v).
+Proof. exact FilesGen.gen_FilesInfo_are_there. Qed.
+Print Assumptions C07_gen_FilesInfo_are_there_is_any_true.
+
+(* ---- third wave (stage 5, whole writer): FilesInfo.write as translated on this run is write_files, for every object and every
+   start position pos0 (= file.tell() when the method is entered, the explicit parameter that stands for the position of the
+   file; the kDummy padding is computed from it).  The model's vector of EmptyFile bits is FilesGen.entry_flags: the flag the
+   code keeps with each empty-stream entry (absent = False). ---- *)
+Theorem C07_gen_FilesInfo_write_is_write_files : forall (self : ArchiveinfoRecords.FilesInfo) pos,
+  ArchiveinfoRecords.FilesInfo_write self pos
+  = write_files pos (map FilesGen.file_of (ArchiveinfoRecords.FilesInfo_files self)) (FilesGen.entry_flags (ArchiveinfoRecords.FilesInfo_files self)).
+Proof. exact FilesGen.gen_FilesInfo_write. Qed.
+Print Assumptions C07_gen_FilesInfo_write_is_write_files.
